@@ -1,7 +1,13 @@
-(* C09 — the shared TransportService model (coq/Ts) with the C09 oracle. *)
+(* C09 — the shared TransportService model (coq/Ts) with the C09 oracle. Case kind 5 (several
+   services over shared connections) goes to the composed model coq/Ts/Multi.v, kind 6 (the name
+   tables of ProtocolSet::new) to coq/Ts/Names.v. *)
 From Coq Require Import List NArith.
-From V.Ts Require Import Model Glue.
-Definition run_case := V.Ts.Glue.run_case.
-Definition prop_ok := prop_ok_C09.
+From V.Ts Require Import Model Glue GlueMulti.
+Import ListNotations.
+Open Scope N_scope.
+Definition run_case (l : list N) : list N :=
+  match l with 5 :: _ => run_multi l | 6 :: _ => run_names l | _ => V.Ts.Glue.run_case l end.
+Definition prop_ok (case trace : list N) : bool :=
+  match case with 5 :: _ => multi_ok9 case trace | 6 :: _ => names_ok case trace | _ => prop_ok_C09 case trace end.
 (* No known-finding classes: every failing case is a violation. *)
 Definition known_class (case trace : list N) : N := 0%N.
